@@ -163,6 +163,7 @@ type Sim struct {
 	// hooks
 	SwapProc  func(from, to *Proc)
 	AfterStep func() // runs on root, all goroutines quiescent
+	StepHook  func(step int64) // runs on root before each pick (fault injection at an exact scheduling step)
 	NormAddr  func(p uintptr) uintptr
 	OnEnd     []func()
 
@@ -430,6 +431,19 @@ func (s *Sim) spawn(p *Proc, name string, f func(), timer bool) *G {
 	return g
 }
 
+// ClassifyFault lets the simulated kernel say what a faulting address belonged to.
+var ClassifyFault func(addr uintptr) string
+
+func (g *G) panicTagsFor(r interface{}) map[string]string {
+	t := g.panicTags()
+	if e, ok := r.(interface{ Addr() uintptr }); ok && ClassifyFault != nil {
+		if c := ClassifyFault(e.Addr()); c != "" {
+			t["fault"] = c
+		}
+	}
+	return t
+}
+
 func (g *G) panicTags() map[string]string {
 	t := map[string]string{"proc": g.proc.Name}
 	for k, v := range g.tags {
@@ -468,7 +482,7 @@ func (s *Sim) run(g *G, f func()) {
 	defer func() {
 		if r := recover(); r != nil {
 			if !s.tornDown {
-				s.fail("panic", fmt.Sprintf("%v", r), string(debug.Stack()), g.panicTags())
+				s.fail("panic", fmt.Sprintf("%v", r), string(debug.Stack()), g.panicTagsFor(r))
 			}
 		}
 		s.mu.Lock()
@@ -503,7 +517,7 @@ func (s *Sim) run2(g *G, f func()) {
 	defer func() {
 		if r := recover(); r != nil {
 			if !s.tornDown {
-				s.fail("panic", fmt.Sprintf("%v", r), string(debug.Stack()), g.panicTags())
+				s.fail("panic", fmt.Sprintf("%v", r), string(debug.Stack()), g.panicTagsFor(r))
 			}
 		}
 		s.mu.Lock()
@@ -730,6 +744,14 @@ loop:
 			s.rootMode = true
 			s.AfterStep()
 			s.rootMode = false
+		}
+		if s.StepHook != nil && !s.failed {
+			s.rootMode = true
+			s.StepHook(s.steps)
+			s.rootMode = false
+			// the hook may have woken goroutines (closed descriptors, killed a process):
+			// let them re-park before the candidate set is computed
+			synctest.Wait()
 		}
 		if s.failed {
 			endReason = "failed"
